@@ -7,7 +7,7 @@
    (strict line, junk-tolerant line, sized binary block) issued one after the other on the
    one cursor, up to and including the first read that would wait (RBlocked) or that saw
    Ctrl-C (RInterrupted). *)
-From Trzsz Require Import Base.Bytes Gen.Consts Model.Buffer Proofs.Buffer Model.Pump Proofs.Pump.
+From Trzsz Require Import Base.Bytes Gen.Consts Model.Buffer Proofs.Buffer Model.Pump Proofs.Pump Model.BufQueue Proofs.BufQueue.
 From Coq Require Import ZArith.
 
 (* every segmentation of the same stream yields the same lines and blocks in the same
@@ -136,6 +136,53 @@ Example C03_source_example :
          [SrcData [35; 68]; SrcData []; SrcData [58; 52; 10; 119; 120]; SrcEnd [10; 122; 35; 83; 10]; SrcData [1; 2; 10]]) =
   [RData [35; 68; 58; 52]; RData [119; 120; 10; 122]; RData [35; 83]].
 Proof. vm_compute. reflexivity. Qed.
+
+(* ---- the queue between the pump and the reader (Model/BufQueue.v) ----
+   bufCh is a bounded FIFO; addBuffer is a send that waits while it is full (both read from
+   the source as values and pinned by buffer_queue_src_ok).  The pump hands its reads to
+   addBuffer in order, the reader takes chunks out; [sched] says whose turn it is, step after
+   step, a goroutine that cannot move waits.  Under EVERY schedule, i.e. however far the reader
+   lags behind: nothing is dropped, and taken ++ queued ++ not-yet-handed-over is the sequence
+   of reads, in order; the two never wait for each other; every move made is one less to
+   make; when none is left the reader has every chunk.  So the unbounded pending list of
+   Model/Buffer.v and Model/Pump.v is what the reader sees. *)
+Theorem C03_queue_never_loses : forall sched chunks,
+  let s := qrun queue_capacity add_blocks sched (q_init chunks) in
+  q_taken s ++ q_queue s ++ q_todo s = chunks /\ q_dropped s = [].
+Proof.
+  intros sched chunks. destruct buffer_queue_src_ok as [B _]. cbv zeta. rewrite B.
+  exact (qrun_conserves queue_capacity sched (q_init chunks)).
+Qed.
+Print Assumptions C03_queue_never_loses.
+
+Theorem C03_queue_never_stuck : forall s, (0 < q_measure s)%nat ->
+  exists m s', qstep queue_capacity add_blocks m s = Some s'.
+Proof. intros s H. exact (q_never_stuck _ _ s (proj2 buffer_queue_src_ok) H). Qed.
+Print Assumptions C03_queue_never_stuck.
+
+Theorem C03_queue_progress : forall m s s', qstep queue_capacity add_blocks m s = Some s' ->
+  S (q_measure s') = q_measure s.
+Proof.
+  intros m s s' H. destruct buffer_queue_src_ok as [B _]. rewrite B in H.
+  destruct (qstep_measure _ _ _ _ _ H) as [E|(_ & F & _)]; [exact E|discriminate].
+Qed.
+Print Assumptions C03_queue_progress.
+
+Theorem C03_queue_delivers_all : forall sched chunks,
+  q_measure (qrun queue_capacity add_blocks sched (q_init chunks)) = 0%nat ->
+  q_taken (qrun queue_capacity add_blocks sched (q_init chunks)) = chunks.
+Proof.
+  intros sched chunks. destruct buffer_queue_src_ok as [B _]. rewrite B. intros H.
+  exact (proj1 (q_done_all_taken _ _ _ H)).
+Qed.
+Print Assumptions C03_queue_delivers_all.
+
+(* a producer that does not wait (`select { case b.bufCh <- buf: default: }`) loses chunks *)
+Theorem C03_queue_nonblocking_refuted :
+  q_taken (qrun 1 false [QProduce; QProduce; QConsume; QConsume] (q_init [[97]; [98]])) = [[97]] /\
+  q_dropped (qrun 1 false [QProduce; QProduce; QConsume; QConsume] (q_init [[97]; [98]])) = [[98]].
+Proof. exact q_nonblocking_loses. Qed.
+Print Assumptions C03_queue_nonblocking_refuted.
 
 (* non-vacuity: a wrapped junk line, a strict line and a block, split inside CR LF *)
 Example C03_example :
